@@ -7,6 +7,8 @@ usage: tools/mutants.py [--tier quick|thorough] [--only NAME[,NAME]] [PROP ...]
 """
 import json, os, subprocess, sys, time
 
+os.environ["VERIF_EVIDENCE_DIR"] = "/tmp/verif-evidence-scratch"  # runs on modified trees must not rewrite /verif/evidence
+
 REPO = "/repo"
 ENV = dict(os.environ, GOFLAGS="-mod=mod", GOPROXY="off", GOSUMDB="off")
 
